@@ -26,6 +26,15 @@ func ShapeCanon(v ssa.Value) string {
 	return shape(v, 0, map[ssa.Value]bool{canonKey: true})
 }
 
+// namedKey in the seen-set renders a local variable that lives in memory (captured by a closure, or address
+// taken) and is assigned more than once as $name instead of the set of values stored into it.
+var namedKey ssa.Value = &ssa.Const{}
+
+// ShapeCanonNamed is ShapeCanon with multiply-assigned memory-resident locals rendered by name.
+func ShapeCanonNamed(v ssa.Value) string {
+	return shape(v, 0, map[ssa.Value]bool{canonKey: true, namedKey: true})
+}
+
 // RangeIndexOf recognises go/ssa's lowering of `for i := range s` (i = phi(-1, i+1); the body uses i+1;
 // the loop runs while i+1 < len(s)) and returns s.
 func RangeIndexOf(v ssa.Value) (ssa.Value, bool) {
@@ -208,6 +217,17 @@ func shapeLoad(addr ssa.Value, depth int, seen map[ssa.Value]bool) string {
 	switch a := addr.(type) {
 	case *ssa.Alloc:
 		// a local: the values stored into it
+		if seen[namedKey] && a.Comment != "" {
+			n := 0
+			for _, r := range *a.Referrers() {
+				if st, ok := r.(*ssa.Store); ok && st.Addr == ssa.Value(a) {
+					n++
+				}
+			}
+			if n >= 2 {
+				return "$" + a.Comment
+			}
+		}
 		if seen[a] {
 			return "φ"
 		}
